@@ -82,7 +82,7 @@ def Pc.shutOk : Pc → Bool
   | .idle | .awaiting | .finAcq _ | .finSet _ | .finDel _ | .finRel _ | .done _ => true
   | _ => false
 def Pc.orphanPc : Pc → Bool
-  | .awaiting | .finAcq _ | .finSet _ | .finDel _ | .finRel _ | .done _ => true
+  | .store _ | .awaiting | .finAcq _ | .finSet _ | .finDel _ | .finRel _ | .done _ => true
   | _ => false
 /-- suspended at an `await` (its loop may stop) or not running at all -/
 def Pc.parked : Pc → Bool
@@ -137,6 +137,7 @@ inductive Label where
   | cancelWait (c : CId)               -- the client cancels a waiting caller
   | evict (k : KId)                    -- the mapping drops an entry
   | loopStart (l : LId) | loopStop (l : LId) | shutdownBegin (l : LId) | loopClose (l : LId)
+  | loopResume (l : LId)               -- a stopped loop is run again (`run_until_complete` a second time)
   deriving Repr
 
 def stepCaller (s : State) (c : CId) : Option State :=
@@ -187,7 +188,8 @@ def step (s : State) : Label → Option State
     else none
   | .step c => stepCaller s c
   | .iend c o =>
-    if (s.cs c).pc = .awaiting ∧ (s.loops (s.cs c).loop).isRunning ∧ ((s.cs c).orphan → o = .cancelled) then
+    -- environment: at shutdown every pending task of the loop is cancelled
+    if (s.cs c).pc = .awaiting ∧ (s.loops (s.cs c).loop).isRunning ∧ (s.loops (s.cs c).loop = .shutting → o = .cancelled) then
       some (match o with
             | .ok v => { s.setPc c (.store v) with produced := fun k' v' => if k' = (s.cs c).key ∧ v' = v then true else s.produced k' v' }
             | .raised x => { s.setPc c (.finAcq (.raised x)) with raisedBy := fun c' x' => if c' = c ∧ x' = x then true else s.raisedBy c' x' }
@@ -218,6 +220,9 @@ def step (s : State) : Label → Option State
   | .loopClose l =>
     if (s.loops l = .stopped ∨ s.loops l = .shutting) ∧ allParked s l then
       some { s with loops := upd s.loops l .closed } else none
+  | .loopResume l =>
+    -- the orphans of the loop stay orphans: somebody may have taken their keys over meanwhile
+    if s.loops l = .stopped then some { s with loops := upd s.loops l .running } else none
 
 def init : State :=
   { lock := none, cache := fun _ => none, marker := fun _ => none, loops := fun _ => .fresh,
